@@ -266,6 +266,12 @@ structure Page where
   fonts : List (Bytes × Nat) := []            -- resources["Font"]
   gstates : List (Bytes × Bytes × Bytes) := []  -- alpha identity, name, printed alpha
   xobjs : List (Bytes × Nat) := []             -- resources["XObject"]
+  patterns : List (Bytes × Bytes × Val) := []  -- resources["Pattern"]: gradient value key, name, pattern dictionary
+  fillKey : Option Bytes := none               -- current fill / stroke paint when it is a gradient
+  strokeKey : Option Bytes := none
+  /-- ghost: (category, name) of every resource name the resource operators emitted into `buf`;
+  categories 0 Font, 1 ExtGState, 2 XObject, 3 Pattern -/
+  uses : List (Nat × Bytes) := []
   annots : List Val := []
   alpha : Bytes := []                          -- identity (bit pattern) of the current alpha
   inText : Bool := false
@@ -280,6 +286,7 @@ structure St where
   fontsH : List (Nat × Nat) := []   -- font identity ↦ ref, in order of reservation (= ascending ref)
   fontsV : List (Nat × Nat) := []
   images : List (Nat × Nat) := []   -- image identity ↦ ref (`w.pdf.images`)
+  done : List Page := []            -- ghost: the pages written so far, as they were when `writePage` ran
   compress : Bool := true
   info : List (List Nat) := [[], [], [], [], [], []]  -- title subject keywords author creator lang
 deriving Inhabited
@@ -289,6 +296,7 @@ structure Env where
   flate : Bytes → Bytes                       -- zlib at default level
   fontVals : Nat → List Val × Val             -- ref ↦ objects written before the font dict, and the font dict
   imageVals : Nat → List Val                  -- image identity ↦ objects `embedImage` writes (soft mask?, image)
+  patternVals : Bytes → Val                   -- gradient value ↦ the pattern dictionary `getPattern` builds
   date : Bytes                                -- time.Now().Format("D:20060102150405Z0700")
   alpha1 : Bytes                              -- identity of the float 1.0
 
@@ -306,6 +314,7 @@ inductive Op where
   | setRenderMode (m : Int)
   | setFont (id : Nat) (sizeKey sizePr : Bytes) (vert : Bool)
   | drawImage (id : Nat) (clip cm a1pr : Bytes)   -- clip path text, the six `cm` numbers, printed 1.0
+  | setGradient (stroke : Bool) (key a1pr : Bytes)   -- SetFill/SetStroke with a gradient paint (value key)
 deriving Inhabited
 
 def resourcesVal (p : Page) : Val :=
@@ -313,7 +322,8 @@ def resourcesVal (p : Page) : Val :=
     ++ (if p.gstates.isEmpty then [] else
         [(asc "ExtGState", Val.dict (p.gstates.map fun (_, n, pr) =>
             (n, Val.dict [(asc "CA", .num pr), (asc "ca", .num pr)])))])
-    ++ (if p.xobjs.isEmpty then [] else [(asc "XObject", Val.dict (p.xobjs.map fun (n, r) => (n, Val.ref r)))]))
+    ++ (if p.xobjs.isEmpty then [] else [(asc "XObject", Val.dict (p.xobjs.map fun (n, r) => (n, Val.ref r)))])
+    ++ (if p.patterns.isEmpty then [] else [(asc "Pattern", Val.dict (p.patterns.map fun (_, n, v) => (n, v)))]))
 
 def pageDict (p : Page) (parent contents : Nat) : Val :=
   .dict ([(asc "Type", .name (asc "Page")),
@@ -345,7 +355,7 @@ def flushPage (env : Env) (s : St) : St :=
   | none => s
   | some p =>
     let (c, r) := writePage env s.compress s.core p
-    { s with core := c, pages := s.pages ++ [r], page := none }
+    { s with core := c, pages := s.pages ++ [r], page := none, done := s.done ++ [p] }
 
 def lookupFont (id : Nat) (m : List (Nat × Nat)) : Option Nat := (m.find? (fun e => e.1 == id)).map (·.2)
 
@@ -366,10 +376,26 @@ def Page.write (p : Page) (b : Bytes) : Page := { p with buf := p.buf ++ b }
 def Page.setAlpha (p : Page) (key pr : Bytes) : Page :=
   if key = p.alpha then p else
   match p.gstates.find? (fun g => g.1 == key) with
-  | some (_, n, _) => { (p.write (asc " /" ++ n ++ asc " gs")) with alpha := key }
+  | some (_, n, _) => { (p.write (asc " /" ++ n ++ asc " gs")) with alpha := key, uses := p.uses ++ [(1, n)] }
   | none =>
     let n := 0x41 :: natBytes p.gstates.length
-    { (p.write (asc " /" ++ n ++ asc " gs")) with alpha := key, gstates := p.gstates ++ [(key, n, pr)] }
+    { (p.write (asc " /" ++ n ++ asc " gs")) with alpha := key, gstates := p.gstates ++ [(key, n, pr)],
+                                                   uses := p.uses ++ [(1, n)] }
+
+/-- `SetFill`/`SetStroke` with a gradient: alpha back to 1, nothing more if the paint is unchanged,
+otherwise `getPattern` (page-local name: reuse the name of an equal pattern of THIS page, else
+`P<number of patterns of this page>`) and the colour-space / colour operators -/
+def Page.setGradient (env : Env) (p : Page) (stroke : Bool) (key a1pr : Bytes) : Page :=
+  let p1 := p.setAlpha env.alpha1 a1pr
+  if (if stroke then p1.strokeKey else p1.fillKey) = some key then p1 else
+  let name : Bytes := match p1.patterns.find? (fun e => e.1 == key) with
+    | some (_, n, _) => n
+    | none => 0x50 :: natBytes p1.patterns.length
+  let pats := if (p1.patterns.find? (fun e => e.1 == key)).isSome then p1.patterns
+              else p1.patterns ++ [(key, name, env.patternVals key)]
+  let p2 := { p1 with patterns := pats, uses := p1.uses ++ [(3, name)] }
+  let p3 := if stroke then { p2 with strokeKey := some key } else { p2 with fillKey := some key }
+  p3.write (if stroke then asc " /Pattern CS /" ++ name ++ asc " SCN" else asc " /Pattern cs /" ++ name ++ asc " scn")
 
 def uriAnnot (uri r0 r1 r2 r3 : Bytes) : Val :=
   .dict [(asc "Type", .name (asc "Annot")), (asc "Subtype", .name (asc "Link")),
@@ -391,7 +417,7 @@ def drawImage (env : Env) (s : St) (p : Page) (id : Nat) (clip cm a1pr : Bytes) 
   let p1 := p.write clip
   let e := embedImage env s id
   let name : Bytes := asc "Im" ++ natBytes p1.xobjs.length
-  let p2 := { p1 with xobjs := p1.xobjs ++ [(name, e.2)] }
+  let p2 := { p1 with xobjs := p1.xobjs ++ [(name, e.2)], uses := p1.uses ++ [(2, name)] }
   let p3 := p2.setAlpha env.alpha1 a1pr
   { e.1 with page := some (p3.write (cm ++ asc " cm /" ++ name ++ asc " Do Q")) }
 
@@ -433,16 +459,25 @@ def step (env : Env) (s : St) : Op → Option St
         let (s1, ref) := getFont s id vert
         let p1 := { p with curFont := some (id, sizeKey, vert) }
         let name : Bytes :=
-          match (if p1.hasFontDict then p1.fonts.find? (fun e => e.2 == ref) else none) with
+          match p1.fonts.find? (fun e => e.2 == ref) with
           | some (n, _) => n
           | none => 0x46 :: natBytes p1.fonts.length
         let fonts := if (p1.fonts.find? (fun e => e.2 == ref)).isSome then p1.fonts else p1.fonts ++ [(name, ref)]
-        let p2 := { p1 with hasFontDict := true, fonts := fonts }
+        let p2 := { p1 with hasFontDict := true, fonts := fonts, uses := p1.uses ++ [(0, name)] }
         some { s1 with page := some (p2.write (asc " /" ++ name ++ asc " " ++ sizePr ++ asc " Tf")) }
   | .drawImage id clip cm a1pr =>
     match s.page with
     | none => none
     | some p => some (drawImage env s p id clip cm a1pr)
+  | .setGradient stroke key a1pr => s.page.map fun p => { s with page := some (p.setGradient env stroke key a1pr) }
+
+/-- the names a page's resource dictionary defines, per category -/
+def Page.names (p : Page) : Nat → List Bytes
+  | 0 => p.fonts.map (·.1)
+  | 1 => p.gstates.map (·.2.1)
+  | 2 => p.xobjs.map (·.1)
+  | 3 => p.patterns.map (·.2.1)
+  | _ => []
 
 def run (env : Env) : St → List Op → Option St
   | s, [] => some s
